@@ -1,19 +1,20 @@
 (* Extraction of the executable models for the correspondence check.
    Directives used: exactly those of ExtrOcamlBasic (bool, option, unit, list,
    prod, sumbool, comparison -> OCaml natives) and ExtrOcamlZBigInt
-   (positive, N, Z -> Big_int_Z.big_int with zarith primitives), and
+   (positive, N, Z -> Big_int_Z.big_int with zarith primitives).
    ExtrOcamlNatBigInt is NOT used: nat stays the unary inductive (only small
    loop counters and list indices are nat). *)
 From Coq Require Import ZArith List.
 From Coq Require Import ExtrOcamlBasic ExtrOcamlZBigInt.
-From Verif Require Import Lib.Octets Model.Outcome Model.Utils Model.BabyJubCore
-  Model.BabyJub Model.Poseidon Model.GoldPoseidon Model.SqrtCore Spec.Hades Model.HadesOpt.
+From Verif Require Import Lib.Octets Lib.Decimal Model.Outcome Model.Utils Model.BabyJubCore
+  Model.BabyJub Model.Poseidon Model.GoldPoseidon Model.SqrtCore Spec.Hades Model.HadesOpt
+  Model.Eddsa Model.Mimc7 Model.FfLimbs Model.FfgLimbs Model.FfConv Model.FfgConv Spec.Keccak Spec.Blake512 Model.KeccakStream.
 
 Extraction Language OCaml.
 Set Extraction KeepSingleton.
 Separate Extraction
   Octets.le_val Octets.be_val Octets.le_bytes Octets.be_bytes Octets.min_be_bytes
-  Octets.hex_encode Octets.hex_decode
+  Octets.hex_encode Octets.hex_decode Decimal.dec_of_Z Decimal.parse_dec
   Utils.SwapEndianness Utils.BigIntLEBytes Utils.SetBigIntFromLEBytes
   Utils.HexEncode Utils.HexDecode Utils.HexDecodeInto Utils.CheckBigIntInField
   Utils.HexString
@@ -22,5 +23,28 @@ Separate Extraction
   BabyJub.InSubGroup BabyJub.PointCoordSign BabyJub.PackSignY BabyJub.UnpackSignY
   BabyJub.Compress BabyJub.PointFromSignAndY BabyJub.Decompress
   Poseidon.HashWithStateEx Poseidon.HashWithState Poseidon.Hash Poseidon.HashEx
-  GoldPoseidon.Hash
-  Hades.perm_ref Hades.sbox5 Hades.sbox7 HadesOpt.perm_opt.
+  GoldPoseidon.Hash GoldPoseidon.C GoldPoseidon.S GoldPoseidon.M GoldPoseidon.P
+  Hades.perm_ref Hades.sbox5 Hades.sbox7 HadesOpt.perm_opt
+  Eddsa.pruneBuffer Eddsa.SigCompress Eddsa.SigDecompress Eddsa.PkCompress Eddsa.PkDecompress
+  Eddsa.PkMarshalText Eddsa.PkCompMarshalText Eddsa.SigCompMarshalText
+  Eddsa.PkCompUnmarshalText Eddsa.SigCompUnmarshalText Eddsa.PkUnmarshalText Eddsa.DecompressSig
+  Eddsa.SigCompScan Eddsa.PkCompScan Eddsa.SigScan Eddsa.PkScan Eddsa.SigValue Eddsa.PkValue
+  Eddsa.SkToBigInt Eddsa.ScalarPublic Eddsa.Public Eddsa.SignPoseidon Eddsa.SignMimc7
+  Eddsa.VerifyPoseidon Eddsa.VerifyMimc7
+  Mimc7.getConstants Mimc7.MIMC7HashGeneric Mimc7.MIMC7Hash Mimc7.HashGeneric Mimc7.Hash Mimc7.HashBytes
+  Keccak.keccak256 Blake512.blake512 KeccakStream.Hash
+  FfLimbs.mulGeneric FfLimbs.fromMontGeneric FfLimbs.addGeneric FfLimbs.doubleGeneric
+  FfLimbs.subGeneric FfLimbs.negGeneric FfLimbs.reduceGeneric FfLimbs.halve FfLimbs.square
+  FfLimbs.setUint64 FfLimbs.toMont FfLimbs.mulBy3 FfLimbs.mulBy5 FfLimbs.mulBy13
+  FfLimbs.butterflyGeneric FfLimbs.exp FfLimbs.inverse FfLimbs.div FfLimbs.batchInvert
+  FfLimbs.equal FfLimbs.isZero
+  FfConv.setBigInt FfConv.setBytes FfConv.setString FfConv.toBigIntRegular FfConv.bytesOf
+  FfConv.stringOf FfConv.cmp FfConv.lexLargest FfConv.legendre FfConv.sqrt
+  FfConv.BigIntArrayToElementArray FfConv.ElementArrayToBigIntArray
+  FfgLimbs.mulGeneric FfgLimbs.fromMontGeneric FfgLimbs.addGeneric FfgLimbs.doubleGeneric
+  FfgLimbs.subGeneric FfgLimbs.negGeneric FfgLimbs.reduceGeneric FfgLimbs.halve FfgLimbs.square
+  FfgLimbs.setUint64 FfgLimbs.toUint64Regular FfgLimbs.toMont FfgLimbs.mulBy3 FfgLimbs.mulBy5
+  FfgLimbs.mulBy13 FfgLimbs.butterflyGeneric FfgLimbs.exp FfgLimbs.inverse FfgLimbs.div
+  FfgLimbs.batchInvert FfgLimbs.setBigInt FfgLimbs.toBigIntRegular
+  FfgConv.setBytes FfgConv.setString FfgConv.bytesOf FfgConv.stringOf FfgConv.equal FfgConv.isZero
+  FfgConv.cmp FfgConv.lexLargest FfgConv.legendre FfgConv.sqrt.
